@@ -96,6 +96,7 @@ type Case struct {
 	Checker      string    `json:"checker"` // default | exact
 	Persona      string    `json:"persona,omitempty"`
 	Mod          string    `json:"mod,omitempty"`         // "" | rewrite | window : a MessageModifier that works in place on the slice it is given
+	Twin         bool      `json:"twin,omitempty"`        // two agents are built from ONE AgentConfig value; the runs use the second, the first is run afterwards and must behave alike
 	EmptyRD      bool      `json:"empty_rd,omitempty"`    // no return-directly tool: ToolReturnDirectly is an empty non-nil map instead of nil
 	RuntimeMax   int       `json:"runtime_max,omitempty"` // > 0: call option compose.WithRuntimeMaxSteps through agent.WithComposeOptions
 	ToolOpt      bool      `json:"tool_opt,omitempty"`    // call option react.WithToolOptions(marker): every tool must receive it
@@ -128,6 +129,27 @@ type toolOpts struct{ marker string }
 const toolMarker = "c18-marker"
 
 var futureHangs atomic.Int32
+
+// a run that has not returned after 10 s is given 50 s more before it is called a hang (the machine may
+// just be slow: many other heavy processes); once a hang was seen, later runs get the 10 s only
+var runHangs atomic.Int32
+
+func awaitRun(done chan any) (any, bool) {
+	select {
+	case p := <-done:
+		return p, true
+	case <-time.After(10 * time.Second):
+	}
+	if runHangs.Load() == 0 {
+		select {
+		case p := <-done:
+			return p, true
+		case <-time.After(50 * time.Second):
+		}
+	}
+	runHangs.Add(1)
+	return nil, false
+}
 
 type modelCall struct {
 	rendered []Msg
@@ -545,6 +567,12 @@ func mkTools(c *Case, defs []ToolDef, alt bool) []tool.BaseTool {
 }
 
 func buildAgent(c *Case) (*react.Agent, error) {
+	ag, _, err := buildAgents(c)
+	return ag, err
+}
+
+// the agent of the case and - Twin - the agent built first from the same AgentConfig value
+func buildAgents(c *Case) (*react.Agent, *react.Agent, error) {
 	tools := mkTools(c, c.Tools, false)
 	if c.SetupFault == "infofail" {
 		tools = append(tools, failingInfoTool{})
@@ -591,20 +619,30 @@ func buildAgent(c *Case) (*react.Agent, error) {
 	}
 	ag, err := react.NewAgent(context.Background(), cfg)
 	if err != nil {
-		return nil, err
+		return nil, nil, err
 	}
-	// the model is told about exactly the configured tools, once, in configuration order
+	builds := 1
+	var first *react.Agent
+	if c.Twin && c.SetupFault == "" {
+		// a second agent from the same configuration value (the caller reuses its AgentConfig)
+		first = ag
+		if ag, err = react.NewAgent(context.Background(), cfg); err != nil {
+			return nil, nil, err
+		}
+		builds = 2
+	}
+	// the model is told about exactly the configured tools, once per NewAgent, in configuration order
 	var want []string
 	for _, d := range c.Tools {
 		want = append(want, d.Name)
 	}
 	if decoy != nil && decoy.touched.Load() > 0 {
-		return ag, errors.New("BINDTOOLS: the deprecated AgentConfig.Model was bound although a ToolCallingModel is configured")
+		return ag, first, errors.New("BINDTOOLS: the deprecated AgentConfig.Model was bound although a ToolCallingModel is configured")
 	}
-	if *fm.binds != 1 || !reflect.DeepEqual(fm.bound, want) {
-		return ag, fmt.Errorf("BINDTOOLS: the model was bound %d times, to the tools %v; configured %v", *fm.binds, fm.bound, want)
+	if *fm.binds != builds || !reflect.DeepEqual(fm.bound, want) {
+		return ag, first, fmt.Errorf("BINDTOOLS: the model was bound %d times by %d NewAgent call(s), to the tools %v; configured %v", *fm.binds, builds, fm.bound, want)
 	}
-	return ag, nil
+	return ag, first, nil
 }
 
 func inputMsgs(c *Case) []*schema.Message {
@@ -826,27 +864,26 @@ func runAgent(tg *target, c *Case, mode string) (o RunObs) {
 			late = err != nil
 		})
 	}()
-	select {
-	case p := <-done:
-		switch {
-		case p != nil:
-			o.Out = Out{Class: "panic", ErrMsg: short(fmt.Sprint(p))}
-		case err != nil:
-			o.Out = Out{Class: "err", Err: classify(err), ErrMsg: short(err.Error())}
-			o.LateErr = late
-		default:
-			m := render(final)
-			o.Out = Out{Class: "final", Msg: &m}
-		}
-	case <-time.After(10 * time.Second):
+	p, returned := awaitRun(done)
+	switch {
+	case !returned:
 		o.Out = Out{Class: "hang"}
 		return
+	case p != nil:
+		o.Out = Out{Class: "panic", ErrMsg: short(fmt.Sprint(p))}
+	case err != nil:
+		o.Out = Out{Class: "err", Err: classify(err), ErrMsg: short(err.Error())}
+		o.LateErr = late
+	default:
+		m := render(final)
+		o.Out = Out{Class: "final", Msg: &m}
 	}
 	if fut != nil {
 		// everything the future hands out was sent before the run returned; once a future was
 		// seen to hang (an oracle failure) later ones are given little time, to stay within the
 		// harness's time budget
-		wait := 3 * time.Second
+		// (the first time the reader of the future is given long: a slow machine is not a hang)
+		wait := 30 * time.Second
 		if futureHangs.Load() > 0 {
 			wait = 50 * time.Millisecond
 		}
@@ -867,7 +904,7 @@ func runAgent(tg *target, c *Case, mode string) (o RunObs) {
 		for _, rnd := range c.specRunWith(-1, !tg.exported, mode == "stream").Rounds {
 			want += len(rnd)
 		}
-		for deadline := time.Now().Add(3 * time.Second); time.Now().Before(deadline); time.Sleep(time.Millisecond) {
+		for deadline := time.Now().Add(20 * time.Second); time.Now().Before(deadline); time.Sleep(time.Millisecond) {
 			rc.mu.Lock()
 			n := len(rc.execs)
 			rc.mu.Unlock()
@@ -974,11 +1011,11 @@ func runAgent(tg *target, c *Case, mode string) (o RunObs) {
 						if used[k] || cl.ID != m.TCID {
 							continue
 						}
-						// a call answered by the UnknownToolsHandler has no callbacks: no message of the future is its
+						want := strings.Join(c.toolChunks(cl.Name, cl.Args), "")
 						if kindIn(c.toolsOf(!tg.exported), cl.Name) == "" {
-							continue
+							want = "unk:" + cl.Name + ":" + cl.Args // answered by the UnknownToolsHandler
 						}
-						if pass == 0 && strings.Join(c.toolChunks(cl.Name, cl.Args), "") != m.Content {
+						if pass == 0 && want != m.Content {
 							continue
 						}
 						keys[gi], used[k] = k, true
@@ -1189,12 +1226,9 @@ func (c *Case) specRunWith(stopAt int, callOpts bool, stream bool) (o RunObs) {
 			return fail(3)
 		}
 		if o.HasEmits {
-			// only tool components have callbacks: an answer of the UnknownToolsHandler is not handed out
-			for i, cl := range st.Calls {
-				if kindIn(defs, cl.Name) != "" {
-					o.Emits = append(o.Emits, results[i])
-				}
-			}
+			// every call of the round has its tool callbacks - since /repo db1b29b also a call answered by the
+			// UnknownToolsHandler - so the future hands out every tool message of the round
+			o.Emits = append(o.Emits, results...)
 		}
 		rdPos := -1 // the first call to a return-directly tool: its result is the answer (whatever the ids of the calls are)
 		for i, cl := range st.Calls {
@@ -1790,6 +1824,7 @@ func genCase(r *lib.Rng, tier string) *Case {
 	if len(c.RD) == 0 {
 		c.EmptyRD = r.Chance(1, 3)
 	}
+	c.Twin = c.SetupFault == "" && r.Chance(1, 5)
 	return c
 }
 
@@ -1860,7 +1895,7 @@ func (engine) Run(ci any) lib.Result {
 		}
 		return res
 	}
-	ag, err := buildAgent(c)
+	ag, firstBuilt, err := buildAgents(c)
 	if err != nil {
 		res.Obs = map[string]string{"setup": err.Error()}
 		res.Oracle, res.Sig = "NewAgent failed: "+err.Error(), "setup"
@@ -1896,8 +1931,27 @@ func (engine) Run(ci any) lib.Result {
 		}
 		wg.Wait()
 	}
-	res.Obs = map[string]any{"generate": gen, "stream": str, "concurrent": len(conc), "exported": exp}
+	var twin []RunObs
+	if firstBuilt != nil {
+		tt := agentTarget(firstBuilt)
+		twin = []RunObs{runAgent(tt, c, "generate"), runAgent(tt, c, "stream")}
+	}
+	res.Obs = map[string]any{"generate": gen, "stream": str, "concurrent": len(conc), "exported": exp, "twin": twin}
 	res.Oracle, res.Sig = c.oracle(&gen, &str, conc, exp)
+	if res.Oracle == "" {
+		// the agent built first from the same AgentConfig value behaves like the one built second
+		for i := range twin {
+			want := &gen
+			if twin[i].Mode == "stream" {
+				want = &str
+			}
+			if d := sameRun(&twin[i], want); d != "" {
+				res.Oracle = fmt.Sprintf("two agents were built from one AgentConfig value: the %s run of the first differs from that of the second in %s: got %s, expected %s", twin[i].Mode, d, js(twin[i]), js(*want))
+				res.Sig = "twin-differs:" + d
+				break
+			}
+		}
+	}
 
 	cur = &interner{names: map[string]string{}}
 	defer func() { cur = nil }()
@@ -2039,6 +2093,7 @@ func (engine) Run(ci any) lib.Result {
 		}
 	}
 	res.Tags = append(res.Tags, fmt.Sprintf("model-stream-empty-chunk-after-front:%v", innerEmpty))
+	res.Tags = append(res.Tags, fmt.Sprintf("two-agents-from-one-config:%v", c.Twin))
 	switch {
 	case len(c.RD) > 0:
 		res.Tags = append(res.Tags, "return-directly-map:nonempty")
@@ -2132,6 +2187,8 @@ func (engine) Shrink(ci any, stillFails func(any) bool) any {
 		func(c *Case) bool { ch := c.IndexInWhole; c.IndexInWhole = false; return ch },
 		func(c *Case) bool { ch := len(c.RD) > 0; c.RD = nil; return ch },
 		func(c *Case) bool { ch := c.MaxStep != 0; c.MaxStep = 0; return ch },
+		func(c *Case) bool { ch := c.Twin; c.Twin = false; return ch },
+		func(c *Case) bool { ch := c.EmptyRD; c.EmptyRD = false; return ch },
 		func(c *Case) bool { ch := len(c.Input) > 1; c.Input = c.Input[len(c.Input)-1:]; return ch },
 	} {
 		try(f)
